@@ -11,8 +11,11 @@
      strax/context.py         make: is_stored shortcut; _add_saver -> StorageFrontend.find(write=True)
 
    Two variants of `Saver.save_from` / `close` are kept:
-     Pinned : finished futures are dropped without looking at their outcome; close only waits   (the tree as pinned)
-     Fixed  : the outcome of every future is inspected; a failed write raises inside save_from's try block
+     Fixed  : the outcome of every future is inspected (Saver._drop_finished; wait + inspect before leaving the try
+              block); a failed write raises inside save_from's try block.  This is the code in /repo since fix df54c5e
+              and the variant the correspondence expects.
+     Pinned : finished futures are dropped without looking at their outcome; close only waits.  The tree as
+              originally pinned (defect D3), kept as documentation: refuted in Props/C04.v.
    Worker threads (thread-pool saving) run the two operations of one chunk write; a *schedule* decides how
    their operations interleave with the saver thread's.  A *fault plan* decides which operations fail. *)
 From SV Require Export Model.FsProtocol.
@@ -24,7 +27,8 @@ Record rcfg := mkRcfg {
   r_var : variant;
   r_proc : prockind;
   r_pool : bool;        (* thread-pool saving (max_workers > 1); only with Threaded *)
-  r_never : bool        (* StorageFrontend(overwrite='never') *)
+  r_never : bool;       (* StorageFrontend(overwrite='never') *)
+  r_closerec : bool     (* save_from records a failure of close() in got_exception (threaded processor) *)
 }.
 
 Definition is_async (c : rcfg) : bool :=
@@ -93,13 +97,16 @@ Record cst := mkCst {
   c_deliv : nat;               (* chunks delivered by the source so far *)
   c_tr : list event;           (* events so far, newest first *)
   c_mon : option pst;          (* the protocol automaton run alongside (monitor) *)
-  c_nf : nat
+  c_nf : nat;
+  c_lost : bool                (* close() failed on the saver's mailbox thread and nobody was told *)
 }.
 
 Definition set_pc (s : cst) (p : pc) : cst :=
-  mkCst p (c_fs s) (c_todo s) (c_i s) (c_rec s) (c_pend s) (c_exc s) (c_kill s) (c_deliv s) (c_tr s) (c_mon s) (c_nf s).
+  mkCst p (c_fs s) (c_todo s) (c_i s) (c_rec s) (c_pend s) (c_exc s) (c_kill s) (c_deliv s) (c_tr s) (c_mon s) (c_nf s) (c_lost s).
 Definition set_pend (s : cst) (l : list task) : cst :=
-  mkCst (c_pc s) (c_fs s) (c_todo s) (c_i s) (c_rec s) l (c_exc s) (c_kill s) (c_deliv s) (c_tr s) (c_mon s) (c_nf s).
+  mkCst (c_pc s) (c_fs s) (c_todo s) (c_i s) (c_rec s) l (c_exc s) (c_kill s) (c_deliv s) (c_tr s) (c_mon s) (c_nf s) (c_lost s).
+Definition set_lost (s : cst) (b : bool) : cst :=
+  mkCst (c_pc s) (c_fs s) (c_todo s) (c_i s) (c_rec s) (c_pend s) (c_exc s) (c_kill s) (c_deliv s) (c_tr s) (c_mon s) (c_nf s) b.
 
 (* The automaton configuration of a request: the complete save, and StorageFrontend._can_overwrite. *)
 Definition pcfg_of (cfg : rcfg) (inp : input) (f0 : fs) : pcfg :=
@@ -117,7 +124,7 @@ Section Run.
     mkCst (c_pc s) f' (c_todo s) (c_i s) (c_rec s) (c_pend s) (c_exc s) (c_kill s) (c_deliv s)
       (ev :: c_tr s)
       (match c_mon s with None => None | Some p => pstep pc0 p ev end)
-      (if fired then S (c_nf s) else c_nf s).
+      (if fired then S (c_nf s) else c_nf s) (c_lost s).
 
   (* Issue operation o.  It fails if the plan says so, or if the file system refuses it.
      Returns the new state and whether the operation succeeded. *)
@@ -143,10 +150,21 @@ Section Run.
     if c_kill s then set_pc s PAbort
     else match r_proc cfg with
          | Threaded =>
-             mkCst PWait (c_fs s) (c_todo s) (c_i s) (c_rec s) (c_pend s) true false (c_deliv s) (c_tr s) (c_mon s) (c_nf s)
+             mkCst PWait (c_fs s) (c_todo s) (c_i s) (c_rec s) (c_pend s) true false (c_deliv s) (c_tr s) (c_mon s) (c_nf s) (c_lost s)
          | SingleThread =>
-             mkCst PLoop (c_fs s) (in_rem inp) (c_i s) (c_rec s) (c_pend s) true true (c_deliv s) (c_tr s) (c_mon s) (c_nf s)
+             mkCst PLoop (c_fs s) (in_rem inp) (c_i s) (c_rec s) (c_pend s) true true (c_deliv s) (c_tr s) (c_mon s) (c_nf s) (c_lost s)
          end.
+
+  (* Saver.close raised (closing flush or directory rename).  With the single-thread processor the exception
+     propagates to the caller.  With the threaded processor close runs in save_from's `finally` on the saver's
+     mailbox thread: if an exception was already being handled the caller gets that one; otherwise the caller
+     learns of the failure only if save_from records it in `got_exception` (r_closerec). *)
+  Definition close_lost (s : cst) : bool :=
+    match r_proc cfg with
+    | SingleThread => false
+    | Threaded => negb (r_closerec cfg) && negb (c_exc s)
+    end.
+  Definition close_failed (s : cst) : cst := set_lost (set_pc s PAbort) (close_lost s).
 
   Definition after_rec (s : cst) : pc :=
     match r_proc cfg with
@@ -179,7 +197,7 @@ Section Run.
                  else match r_proc cfg with Threaded => set_pc s PWait | SingleThread => set_pc s PClose end
              | (n, v) :: rest =>
                  let s1 := mkCst (c_pc s) (c_fs s) rest (c_i s) (c_rec s) (c_pend s) (c_exc s) (c_kill s)
-                             (if c_kill s then c_deliv s else S (c_deliv s)) (c_tr s) (c_mon s) (c_nf s) in
+                             (if c_kill s then c_deliv s else S (c_deliv s)) (c_tr s) (c_mon s) (c_nf s) (c_lost s) in
                  if n =? 0 then set_pc s1 (PRec n)
                  else if is_async cfg && negb (c_kill s)
                       then set_pc (set_pend s1 (c_pend s1 ++ [mkTask (c_i s) v TNew])) (PRec n)
@@ -194,11 +212,11 @@ Section Run.
     | PRec n =>
         let rec' := c_rec s ++ [(c_i s, n)] in
         let s1 := mkCst (c_pc s) (c_fs s) (c_todo s) (c_i s) rec' (c_pend s) (c_exc s) (c_kill s) (c_deliv s)
-                    (c_tr s) (c_mon s) (c_nf s) in
+                    (c_tr s) (c_mon s) (c_nf s) (c_lost s) in
         let '(s', ok) := do_op s1 (OWriteMeta (mkMeta rec' false false)) in
         if ok
         then mkCst (after_rec s') (c_fs s') (c_todo s') (c_i s' + 1) (c_rec s') (c_pend s') (c_exc s') (c_kill s')
-               (c_deliv s') (c_tr s') (c_mon s') (c_nf s')
+               (c_deliv s') (c_tr s') (c_mon s') (c_nf s') (c_lost s')
         else handler s'
     | PCheck =>
         match r_var cfg with
@@ -214,16 +232,16 @@ Section Run.
              | Fixed =>
                  if existsb t_failed (c_pend s)
                  then mkCst PClose (c_fs s) (c_todo s) (c_i s) (c_rec s) (c_pend s) true (c_kill s) (c_deliv s)
-                        (c_tr s) (c_mon s) (c_nf s)
+                        (c_tr s) (c_mon s) (c_nf s) (c_lost s)
                  else set_pc s PClose
              end
         else s
     | PClose =>
         let '(s', ok) := do_op s (OWriteMeta (mkMeta (c_rec s) true (c_exc s))) in
-        if ok then set_pc s' PRen else set_pc s' PAbort
+        if ok then set_pc s' PRen else close_failed s'
     | PRen =>
         let '(s', ok) := do_op s ORenameDir in
-        if ok then set_pc s' PEnd else set_pc s' PAbort
+        if ok then set_pc s' PEnd else close_failed s'
     | PEnd | PAbort => s
     end.
 
@@ -289,7 +307,7 @@ Section Run.
 End Run.
 
 Definition init_cst (inp : input) (f0 : fs) : cst :=
-  mkCst PInit0 f0 (in_chunks inp) 0 [] [] false false 0 [] (Some pst_init) 0.
+  mkCst PInit0 f0 (in_chunks inp) 0 [] [] false false 0 [] (Some pst_init) 0 false.
 
 (* enough fuel for every schedule: 6 saver-thread steps per chunk (loop, write, rename, record, check +1),
    2 worker steps per chunk, the same for the kill-path remainder, and the fixed prologue / epilogue *)
@@ -317,7 +335,7 @@ Definition request (cfg : rcfg) (inp : input) (pl : plan) (sched : list (option 
         let s := run cfg inp pl pc0 (fuel_for inp) sched (init_cst inp f0) in
         mkResult (match c_pc s with
                   | PEnd => if c_exc s then Err E_SAVE else Ok tt
-                  | _ => Err E_SAVE
+                  | _ => if c_lost s then Ok tt else Err E_SAVE
                   end)
           (c_fs s) (rev (c_tr s))
           (match c_mon s with Some _ => true | None => false end)
